@@ -1819,6 +1819,261 @@ func (w *world) prodQueries(size, got uint64, r *vh.RNG) {
 	}
 }
 
+// ---------------------------------------------------------------- the ChainIndexer as a state machine
+
+// gatedBackend is a core.ChainIndexerBackend doing what aqua.BloomIndexer does (Reset = NewGenerator,
+// Process = AddBloom, Commit = write the 2048 rows keyed by (bit, section, head)), except that the rows are
+// read through the verif hook (so that section sizes below 2048 commit, see bloombits-bitset-bound-uses-sections)
+// and that Reset waits at a gate: the harness decides when a section is processed, and may switch the
+// canonical chain or deliver notifications while the update loop holds a captured (section, oldHead).
+type gatedBackend struct {
+	db      aquadb.Database
+	size    uint64
+	gen     *bloombits.Generator
+	section uint64
+	head    common.Hash
+	atGate  chan uint64
+	gate    chan struct{}
+}
+
+func (b *gatedBackend) Reset(section uint64, prev common.Hash) error {
+	b.atGate <- section
+	<-b.gate
+	gen, err := bloombits.NewGenerator(uint(b.size))
+	b.gen, b.section, b.head = gen, section, common.Hash{}
+	return err
+}
+func (b *gatedBackend) Process(h *types.Header) {
+	b.gen.AddBloom(uint(h.Number.Uint64()-b.section*b.size), h.Bloom)
+	b.head = h.Hash()
+}
+func (b *gatedBackend) Commit() error {
+	batch := b.db.NewBatch()
+	for i := 0; i < types.BloomBitLength; i++ {
+		core.WriteBloomBits(batch, uint(i), b.section, b.head, bitutil.CompressBytes(b.gen.VerifRow(uint(i))))
+	}
+	return batch.Write()
+}
+
+var ixFailures uint64 // "Chain index processing failed" records seen (emitted under the indexer's lock)
+
+type ixBlock struct {
+	h *types.Header
+}
+
+func hashN(h common.Hash) string { return "0x" + new(big.Int).SetBytes(h[:]).Text(16) }
+
+// one lock-step history: the same operations on core.ChainIndexer and on the model
+func indexerMachine(c *vh.Ctx, m *vh.Model, r *vh.RNG, size, confirms uint64, nops int) {
+	db := aquadb.NewMemDatabase()
+	be := &gatedBackend{db: db, size: size, atGate: make(chan uint64, 1), gate: make(chan struct{})}
+	ix := core.NewChainIndexer(cfg, db, aquadb.NewTable(db, "ixm-"), be, size, confirms, 0, "verif-ixm")
+	defer func() {
+		go func() { // let a gated loop run off before closing
+			for {
+				select {
+				case be.gate <- struct{}{}:
+				case <-be.atGate:
+				case <-time.After(50 * time.Millisecond):
+					return
+				}
+			}
+		}()
+		ix.Close()
+	}()
+	var chain []*types.Header
+	mk := func(parent *types.Header, salt uint64) *types.Header {
+		h := &types.Header{Number: new(big.Int), Difficulty: big.NewInt(1), Time: new(big.Int).SetUint64(salt), Extra: r.Bytes(4)}
+		if parent != nil {
+			h.Number.Add(parent.Number, big.NewInt(1))
+			h.ParentHash = parent.Hash()
+		}
+		for k := r.Intn(4); k > 0; k-- { // sparse bloom, sometimes empty
+			h.Bloom[r.Intn(256)] |= 1 << uint(r.Intn(8))
+		}
+		h.Version = cfg.GetBlockVersion(h.Number)
+		core.WriteHeader(db, h)
+		return h
+	}
+	tok := func(h *types.Header) string {
+		return hashN(h.Hash()) + ":" + hashN(h.ParentHash) + ":" + vh.Hex(h.Bloom[:])
+	}
+	setCanon := func(newChain []*types.Header) {
+		for i, h := range newChain {
+			core.WriteCanonicalHash(db, h.Hash(), uint64(i))
+		}
+		for i := len(newChain); i < len(chain); i++ {
+			core.DeleteCanonicalHash(db, uint64(i))
+		}
+		core.WriteHeadHeaderHash(db, newChain[len(newChain)-1].Hash())
+	}
+	undecided := func(why string) {
+		c.Count("indexer-machine/undecided: " + why)
+	}
+	chain = []*types.Header{mk(nil, 0)}
+	setCanon(chain)
+	mstate := m.Ask(fmt.Sprintf("ixinit rows %d %d %s", size, confirms, tok(chain[0])))
+	type notif struct {
+		reorg bool
+		n     uint64
+	}
+	var queue []notif
+	gated, gatedSection := false, uint64(0)
+	render := func() string {
+		known, stored := ix.VerifSections()
+		heads := make([]string, stored+2)
+		for s := range heads {
+			heads[s] = hashN(ix.SectionHead(uint64(s)))
+		}
+		p := "-"
+		if gated {
+			p = fmt.Sprint(gatedSection)
+		}
+		q := "-"
+		if len(queue) > 0 {
+			var qs []string
+			for _, x := range queue {
+				if x.reorg {
+					qs = append(qs, fmt.Sprintf("R%d", x.n))
+				} else {
+					qs = append(qs, fmt.Sprintf("H%d", x.n))
+				}
+			}
+			q = strings.Join(qs, ",")
+		}
+		return fmt.Sprintf("known=%d stored=%d pending=%s heads=%s queue=%s", known, stored, p, strings.Join(heads, ","), q)
+	}
+	// after anything that may wake the update loop: if it reaches the gate, that is the model's OpBegin
+	awaitGate := func() bool {
+		known, stored := ix.VerifSections()
+		if gated || known <= stored {
+			return true
+		}
+		select {
+		case s := <-be.atGate:
+			gated, gatedSection = true, s
+			mstate = m.Ask("ixbegin")
+			return true
+		case <-time.After(30 * time.Second):
+			undecided("update loop did not reach the gate")
+			return false
+		}
+	}
+	compare := func(what string) {
+		c.Correspond("core.ChainIndexer(newHead,updateLoop,sections)~new_head,step_begin,step_end", what, render(), mstate)
+	}
+	for opi := 0; opi < nops; opi++ {
+		head := uint64(len(chain) - 1)
+		kind := r.Intn(10)
+		switch {
+		case kind < 2: // the chain grows
+			n := 1 + r.Intn(int(2*size))
+			nc := append([]*types.Header(nil), chain...)
+			var toks []string
+			for i := 0; i < n; i++ {
+				nc = append(nc, mk(nc[len(nc)-1], uint64(opi)))
+				toks = append(toks, tok(nc[len(nc)-1]))
+				queue = append(queue, notif{false, uint64(len(nc) - 1)})
+			}
+			setCanon(nc)
+			mstate = m.Ask(fmt.Sprintf("ixchain %d %s", len(chain), strings.Join(toks, " ")))
+			chain = nc
+			c.Eval("indexer-machine/op=extend", "")
+		case kind < 4 && head >= 2: // reorg, up to three sections deep; the new branch may be shorter or longer
+			depth := 1 + r.Intn(int(min(int(head), int(3*size))))
+			anc := head - uint64(depth)
+			n := depth + r.Intn(int(size)) - r.Intn(min(depth, int(size)))
+			if n < 1 {
+				n = 1
+			}
+			nc := append([]*types.Header(nil), chain[:anc+1]...)
+			var toks []string
+			queue = append(queue, notif{true, anc})
+			for i := 0; i < n; i++ {
+				nc = append(nc, mk(nc[len(nc)-1], uint64(opi)))
+				toks = append(toks, tok(nc[len(nc)-1]))
+				queue = append(queue, notif{false, uint64(len(nc) - 1)})
+			}
+			setCanon(nc)
+			mstate = m.Ask(fmt.Sprintf("ixchain %d %s", anc+1, strings.Join(toks, " ")))
+			chain = nc
+			c.Eval(fmt.Sprintf("indexer-machine/op=reorg/depth-sections=%d", uint64(depth)/size), "")
+		case kind < 8 && len(queue) > 0: // deliver notifications (one, or all)
+			k := 1
+			if r.Chance(50) {
+				k = len(queue)
+			}
+			for ; k > 0; k-- {
+				ix.VerifNewHead(queue[0].n, queue[0].reorg)
+				queue = queue[1:]
+				mstate = m.Ask("ixdeliver")
+				if !awaitGate() {
+					return
+				}
+			}
+			c.Eval("indexer-machine/op=deliver", "")
+		case gated: // let the update loop process the section it holds
+			_, storedBefore := ix.VerifSections()
+			failBefore := atomic.LoadUint64(&ixFailures)
+			be.gate <- struct{}{}
+			deadline := time.Now().Add(30 * time.Second)
+			done := false
+			for !done && time.Now().Before(deadline) {
+				_, stored := ix.VerifSections()
+				if atomic.LoadUint64(&ixFailures) > failBefore || (stored == gatedSection+1 && stored > storedBefore) {
+					done = true
+				} else {
+					time.Sleep(time.Millisecond)
+				}
+			}
+			if !done {
+				undecided("section processing did not finish")
+				return
+			}
+			gated = false
+			mstate = m.Ask("ixend")
+			c.Eval("indexer-machine/op=step", "")
+			compare(fmt.Sprintf("op %d step (size %d)", opi, size))
+			if !awaitGate() {
+				return
+			}
+		default:
+			continue
+		}
+		compare(fmt.Sprintf("op %d (size %d, confirms %d, head %d)", opi, size, confirms, len(chain)-1))
+		// the theorem's statement evaluated on the implementation: all notifications delivered =>
+		// every stored section's rows, fetched as the bloom handlers fetch them, are the transposition
+		// of the blooms of the canonical headers as they are now
+		if len(queue) == 0 {
+			_, stored := ix.VerifSections()
+			for s := uint64(0); s < stored; s++ {
+				headHash := core.GetCanonicalHash(db, (s+1)*size-1)
+				for _, bit := range []uint{uint(r.Intn(2048)), uint(r.Intn(2048)), 0, 2047} {
+					want := make([]byte, size/8)
+					for k := uint64(0); k < size; k++ {
+						h := chain[s*size+k]
+						if h.Bloom[types.BloomByteLength-1-bit/8]&(1<<(bit%8)) != 0 {
+							want[k/8] |= 1 << (7 - k%8)
+						}
+					}
+					obs := "missing"
+					if comp, err := core.GetBloomBits(db, bit, s, headHash); err == nil {
+						if blob, err := bitutil.DecompressBytes(comp, int(size/8)); err == nil {
+							obs = vh.Hex(blob)
+						}
+					}
+					c.Correspond("stored bloombits row (GetBloomBits at canonical head)~index_of_world", fmt.Sprintf("ixrow %d %d", bit, s), obs, m.Ask(fmt.Sprintf("ixrow %d %d", bit, s)))
+					if obs != vh.Hex(want) {
+						violate(c, fmt.Sprintf("indexer-stale-or-missing-row-after-reorg/size%d", size), "a stored section's bloombits row is not the transposition of the current canonical headers although every notification was delivered",
+							map[string]string{"section": fmt.Sprint(s), "bit": fmt.Sprint(bit), "row": obs, "expected": vh.Hex(want), "head": fmt.Sprint(len(chain) - 1), "op": fmt.Sprint(opi), "state": render()})
+					}
+				}
+			}
+			c.Eval(fmt.Sprintf("indexer-machine/idle-check/stored=%d", min(int(stored), 6)), fmt.Sprintf("ixm-%d-%d-%d", size, opi, stored))
+		}
+	}
+}
+
 // ---------------------------------------------------------------- reorg histories
 
 // Histories over one database and long-lived service objects: index + query on fork A, make fork B
@@ -1922,7 +2177,13 @@ func main() {
 	defer m.Close()
 	c.Res.Rule = "ONE shared value pool per world: emitter addresses (incl. 0x0100 and the zero address) and topics in deliberate relations (topic = left-padded / right-padded emitter address, same 20 bytes with dirty padding or at another offset, zero word, near pair, addresses cut out of random topics). Bloom level: every relation x every placement (same log, topic before/after the emitter's log in one receipt, other receipt of the block, repeated topic/address) plus random log sets over the pool: CreateBloom/LogsBloom(every receipt)/BloomLookup/filterLogs/bloomFilter vs model, no-false-negative oracle over every address and topic of every log on both the receipt and the block bloom. Chain level: core.GenerateChain (faker) calling LOG0-LOG4 emitter contracts with designed scripts (own padded address as topic, caller naming a callee before/after the callee emits, 4-topic logs, reverting contract), every emitter called alone in blocks 1..22, logs forced on both sides of every 64-block boundary, around 2040..2056 and at the head; deterministic sweeps: every pool address / topic (positions 0..3) / special shape (trailing and inner empty alternative lists incl. explicit empty, 4-5 positions, duplicate addresses/alternatives/rules, address with its own related topics) through the indexed, half-indexed and unindexed path; range shapes (ends not aligned to 8 or to the section size, begin inside one section and end in a later one, everything within +-3 of sections*size and of head, -1 ends, begin>end) x index progress; then random criteria/ranges; section sizes 8/64 (harness-built index via bloombits.Generator, any progress) and 2048 (production ChainIndexer+BloomIndexer; 4096 in the thorough tier); operation sequences on bloombits.Generator. Reorg histories on one database with long-lived service objects: the production bloom node (NewBloomIndexer at 4096 + startBloomHandlers + AquaApiBackend.BloomStatus/ServiceFilter, via a verif hook) and the production indexer at 2048 are indexed and queried on fork A (4361 blocks), then fork B (dense logs exactly where A has none, forking at 3900 inside indexed sections, deeper than the 256 confirmations) is made canonical with the ChainEvents a reorg posts, first too short for the section to be confirmed again (valid sections drop, unindexed answers), then long enough (re-indexed), and the same queries (same bits, caches warm: replaced blocks, around the fork, old+new sections, section end, whole chain) are asked at every step; thorough: reorgs back and forth and a 2-section chain with a partial rollback. A case is distinct and non-trivial when its input is new and it has at least one hit (query/matcher: non-empty expected result; bloom: non-empty log set; generator: fully generated)"
 
-	log.Root().SetHandler(log.LvlFilterHandler(log.LvlCrit, log.StreamHandler(os.Stderr, log.TerminalFormat(false))))
+	quiet := log.LvlFilterHandler(log.LvlCrit, log.StreamHandler(os.Stderr, log.TerminalFormat(false)))
+	log.Root().SetHandler(log.FuncHandler(func(rec *log.Record) error {
+		if rec.Msg == "Chain index processing failed" {
+			atomic.AddUint64(&ixFailures, 1)
+		}
+		return quiet.Log(rec)
+	}))
 	t0 := time.Now()
 	stage := func(name string) {
 		c.Note("stage %s: %.1fs", name, time.Since(t0).Seconds())
@@ -1932,6 +2193,14 @@ func main() {
 	stage("bloom-level")
 	generatorLevel(c, m)
 	stage("generator-level")
+	{
+		rr := c.Rng.Fork()
+		for i := 0; i < c.Scale(6, 30); i++ {
+			size := []uint64{8, 16, 8, 16, 8, 12}[i%6]
+			indexerMachine(c, m, rr, size, []uint64{0, 2, 5}[i%3], c.Scale(55, 150))
+		}
+		stage("indexer state machine")
+	}
 
 	// ---- short chain: sizes 8 and 64, harness-built index, every progress state
 	short := buildWorld(c, m, c.Scale(303, 703), 30, nil) // 304 / 704 blocks with genesis: a whole number of 8- and 64-block sections
